@@ -286,6 +286,51 @@ def judgeSlot (pfx : String) (obs : List LogObs) (k : Nat) (o : Inst) : Option S
   else if !futures o then some (pfx ++ "/future/resolved-with-other-value")
   else none
 
+/-! ### bounded progress under one stable leader (fault-free, quiet)
+
+"On a fault-free network with bounded delays … a command submitted to an established leader is eventually
+decided and applied": judged in the bounded form *the run went quiet and the work is done*.  A run is a quiet
+fault-free stable-leader run when `start()` was called exactly once (nobody competes with that ballot), no
+partition was ever installed, and every `Prepare` / `Promise` / `Accept` / `Accepted` / `Nack` that was sent has
+been delivered before the end (nothing lost, nothing still in flight).  In such a run every slot the leader
+replicated (it sent `Accept(slot, cmd)`: `prop leader _ slot cmd`) is committed on the leader with that command
+at the end (`finalCom` = its committed commands in slot order), and the `submit()` future of that command is
+resolved with `(slot, result of that command)` — in whatever order the acknowledgements of different slots came
+back.  Commands the leader never replicated are not covered (the pinned tree parks a command submitted to a
+non-leader and appends, without replicating, a command submitted to an established leader). -/
+
+structure Quiet where
+  leader : Nat
+  starts : Nat
+  partitions : Nat
+  sent : Nat
+  delivered : Nat
+deriving Repr
+
+def Quiet.stable (q : Quiet) : Bool := q.starts == 1 && q.partitions == 0 && q.sent == q.delivered
+
+/-- `(slot, cmd)` of the `Accept` messages sent by `p` -/
+def leaderProps (obs : List LogObs) (p : Nat) : List (Nat × Nat) :=
+  obs.filterMap fun
+    | .prop p' _ s c => if p' == p then some (s, c) else none
+    | _ => none
+
+def slotCommitted (com : List Nat) (sc : Nat × Nat) : Bool :=
+  decide (1 ≤ sc.1) && com[sc.1 - 1]? == some sc.2
+
+/-- `subs` = `(future id, command)` of every `submit()`; `futs` = `(future id, slot, result)` of every resolved future -/
+def futureResolved (subs : List (Nat × Nat)) (futs : List (Nat × Nat × Nat)) (sc : Nat × Nat) : Bool :=
+  subs.all fun f => f.2 != sc.2 || futs.contains (f.1, sc.1, sc.2)
+
+def judgeProgress (pfx : String) (q : Quiet) (obs : List LogObs) (finalCom : List Nat)
+    (subs : List (Nat × Nat)) (futs : List (Nat × Nat × Nat)) : Option String :=
+  if !q.stable then none
+  else if !(leaderProps obs q.leader).all (slotCommitted finalCom) then
+    some (pfx ++ "/progress/replicated-slot-never-committed-by-stable-leader")
+  else if !(leaderProps obs q.leader).all (futureResolved subs futs) then
+    some (pfx ++ "/progress/future-never-resolved-by-stable-leader")
+  else none
+
 /-! ## Distributed lock: fencing tokens strictly increase across grants -/
 
 /-- an observed grant: (lock, holder, token) -/
